@@ -6,11 +6,10 @@ WIRE_TB = ['hand-written Lean model of Message::Flatten/Unflatten/FlattenedSize 
 SRV_H = [{'name': 'srv', 'sources': ['harness/srv.cpp']}]
 
 PROPS = {
-    'C04': {
-        'engine': 'srv',
-        'lean_props': ['MuscleModel.Props.C01'],
-        'harnesses': SRV_H,
-    },
+    'C04': {'engine': 'srv', 'lean_props': ['MuscleModel.Props.C01'], 'harnesses': SRV_H},
+    'C05': {'engine': 'srv', 'lean_props': ['MuscleModel.Props.C01'], 'harnesses': SRV_H},
+    'C06': {'engine': 'srv', 'lean_props': ['MuscleModel.Props.C01'], 'harnesses': SRV_H},
+    'C13': {'engine': 'srv', 'lean_props': ['MuscleModel.Props.C01'], 'harnesses': SRV_H},
     'C01': {
         'engine': 'msg',
         'lean_props': ['MuscleModel.Props.C01'],
